@@ -334,7 +334,10 @@ def fitAlignT (S : Matrix) (gapOpen : Int) (r q : List Nat) : Except Err (List P
   match tbLoop false t S gapOpen r q R C (i + C)
       { i := i, j := C, layer := .m, last := .m, score := 0, maxI := i, maxJ := C, aln := [] } with
   | .error e => .error e
-  | .ok st => .ok (st.emit.aln, st.tie)
+  | .ok st =>
+    -- the loop stopped in row 0 with query letters left: they are a leading gap (fix K2b)
+    if st.j ≠ 0 then .ok (⟨st.i, st.i, 0, st.j, vget (t.at st.i st.j).l⟩ :: st.emit.aln, st.tie)
+    else .ok (st.emit.aln, st.tie)
 
 def fitAlign (S : Matrix) (gapOpen : Int) (r q : List Nat) : Except Err (List Pair) :=
   (fitAlignT S gapOpen r q).map (·.1)
